@@ -34,8 +34,6 @@ func rjTerm(v interface{}) string {
 		zi := "None"
 		s := string(x)
 		if !strings.ContainsAny(s, ".eE") {
-			var bi struct{}
-			_ = bi
 			if z, ok := parseBigInt(s); ok {
 				zi = emit.Some(z)
 			}
